@@ -61,6 +61,8 @@ FACTORIES = {
     'Oid': lambda name, attrs, ctx: ObjectId(None),
     'FlagOp': lambda name, attrs, ctx: _OPS[name],
     'AppendMsg': f_append,
+    # Msg.flags_key = (uid, frozenset) is declared by contracts/selected.py when that module is loaded too (C01/C02 link)
+    'FSet': lambda name, attrs, ctx: frozenset(),
 }
 
 
